@@ -133,3 +133,40 @@ LEVEL_TEXT = ("Deductive pipeline-term obligations on the real graphql_cases and
               "validity of the generated document is the library's (E7). Level other.")
 LEVEL_NOTE = "Trusted: hypothesis-graphql, graphql-core (E7), Hypothesis constructors (E2), pyvc semantics (E9)."
 TECHNIQUE = "contract-based deductive verification: strategy-term postconditions on the real functions via AST symbolic execution + z3 (pyvc)"
+
+
+# ------------------------------------------------------------------------------------------------- native replay: the same term view of a real Hypothesis strategy
+def _n_view(s):
+    import types
+
+    w = getattr(s, "wrapped_strategy", s)
+    name = type(w).__name__
+    if name == "MappedStrategy":
+        return types.SimpleNamespace(kind="map", f=w.pack, inner=_n_view(w.mapped_strategy))
+    if name == "IntegersStrategy":
+        ns = types.SimpleNamespace(kind="integers")
+        if w.start is not None:
+            ns.min_value = w.start
+        if w.end is not None:
+            ns.max_value = w.end
+        return ns
+    ns = types.SimpleNamespace(kind=name)
+    for k, v in getattr(s, "_LazyStrategy__kwargs", {}).items():
+        setattr(ns, k, v)
+    return ns
+
+
+def _n_is_node_ctor(f, name):
+    import hypothesis_graphql.nodes as nodes
+
+    return f is getattr(nodes, name)
+
+
+def _n_innermost(s):
+    while hasattr(s, "inner"):
+        s = s.inner
+    return s
+
+
+R.contracts[SC + "get_extra_scalar_strategies"].native_view = lambda result: {k: _n_view(v) for k, v in result.items()}
+NATIVE = {"helpers": {"is_node_ctor": _n_is_node_ctor, "innermost": _n_innermost, "fields_of": vars}}
